@@ -58,7 +58,7 @@ CHECKS = {
    "5 C10"),
  "C11": ("model_checking",
    "exhaustive enumeration of read schedules (every two-piece split, all chunk sizes, every <=1-2 short-read deviation and one interrupted call at every read-call index) of an environment-owned reader, and of call histories (failed hashed read, then the whole file)",
-   "hash == xxh3 (one-shot reference) of the bytes through the closing brace for every schedule and both skip settings; trailing bytes excluded; None when not requested; carried through .slpp.",
+   "hash == xxh3 (one-shot reference) of the bytes through the closing brace for every schedule and both skip settings, also with 1 .. 17 MiB (thorough 33 MiB) of events ahead of Game End; trailing bytes excluded; None when not requested; carried through .slpp.",
    "xxhash-rust one-shot xxh3_64 is the reference.",
    "5 C11"),
  "C12": ("model_checking",
